@@ -205,7 +205,123 @@ fn main() {
             writeln!(um, "    um_kind!({}, {}, {}Builder, {}, [{}], custom: [{}], indexed: [{}]),", exp, ty, ty, variant, accs.join(", "), custom.join(", "), indexed.join(", ")).unwrap();
         }
     }
+    // message-local (synthesised) flag structs: `struct X { inner: uN, member: Option<..>, .. }` with new_*/set_* per enumerator
+    let mut synth = String::new();
+    let world = repo.join("wow_world_messages/src/world");
+    let re_synth = Regex::new(r"(?m)^pub struct (\w+) \{\n    inner: (u8|u16|u32|u64),\n    \w+: ").unwrap();
+    let re_new0 = Regex::new(r"pub const fn new_(\w+)\(\) -> Self \{\s*Self \{\s*inner: (\w+)::(\w+),").unwrap();
+    let re_new1 = Regex::new(r"pub const fn new_(\w+)\(\w+: (\w+)\) -> Self \{\s*Self \{\s*inner: (?:(\w+)::(\w+)|\w+\.as_int\(\)),").unwrap();
+    let re_default = Regex::new(r"(?m)^#\[derive\(([^)]*)\)\]\n(?:#\[[^\n]*\]\n)*pub (?:struct|enum) (\w+)").unwrap();
+    let re_impl_default = Regex::new(r"impl Default for (\w+)").unwrap();
+    // types that can be built with Default
+    let mut has_default: std::collections::BTreeSet<String> = ["u8", "u16", "u32", "u64", "i8", "i16", "i32", "i64", "f32", "bool", "String", "Guid", "DateTime", "Gold", "Level"].iter().map(|s| s.to_string()).collect();
+    let mut all_dirs: Vec<PathBuf> = ["vanilla", "tbc", "wrath", "shared"].iter().map(|d| world.join(d)).collect();
+    all_dirs.extend(["vanilla", "tbc", "wrath", "shared"].iter().map(|d| base.join(d)));
+    for d in &all_dirs {
+        for f in files(d) {
+            let Ok(src) = std::fs::read_to_string(&f) else { continue };
+            for c in re_default.captures_iter(&src) {
+                if c[1].split(',').any(|x| x.trim() == "Default") {
+                    has_default.insert(c[2].to_string());
+                }
+            }
+            for c in re_impl_default.captures_iter(&src) {
+                has_default.insert(c[1].to_string());
+            }
+        }
+    }
+    let defaultable = |ty: &str| -> bool {
+        let t = ty.trim();
+        if has_default.contains(t) {
+            return true;
+        }
+        if let Some(inner) = t.strip_prefix("Vec<").or(t.strip_prefix("Option<")) {
+            let _ = inner;
+            return true;
+        }
+        if t.starts_with('[') {
+            // [T; N] with N <= 32 and T: Default
+            let inner = t.trim_start_matches('[');
+            if let Some((el, n)) = inner.trim_end_matches(']').rsplit_once(';') {
+                return n.trim().parse::<usize>().map(|n| n <= 32).unwrap_or(false) && has_default.contains(el.trim());
+            }
+        }
+        false
+    };
+    for dir in ["vanilla", "tbc", "wrath", "shared"] {
+        for f in files(&world.join(dir)) {
+            let stem = f.file_stem().unwrap().to_str().unwrap().to_string();
+            if stem == "mod" || stem == "opcodes" {
+                continue;
+            }
+            println!("cargo:rerun-if-changed={}", f.display());
+            let Ok(src) = std::fs::read_to_string(&f) else { continue };
+            let nss: Vec<&'static str> = if dir == "shared" { nss_of_stem(&stem) } else { vec![match dir { "vanilla" => "vanilla", "tbc" => "tbc", _ => "wrath" }] };
+            if nss.is_empty() {
+                continue;
+            }
+            let mp = format!("wow_world_messages::{}", nss[0]);
+            let nss_s = nss.iter().map(|n| format!("\"{}\"", n)).collect::<Vec<_>>().join(", ");
+            for sc in re_synth.captures_iter(&src) {
+                let name = sc[1].to_string();
+                // the impl block with the constructors
+                let Some(istart) = src.find(&format!("impl {} {{\n    pub const fn new(inner:", name)) else { continue };
+                let iend = src[istart..].find("\n}\n").map(|x| istart + x).unwrap_or(src.len());
+                let block = &src[istart..iend];
+                let mut flag_name = String::new();
+                let mut cases = String::new();
+                for c in re_new0.captures_iter(block) {
+                    flag_name = c[2].to_string();
+                    write!(cases, "synth_case!({mp}::{name}, \"{m}\", \"{k}\", new_{m}, set_{m}, ()), ", mp = mp, name = name, m = &c[1], k = &c[3]).unwrap();
+                }
+                for c in re_new1.captures_iter(block) {
+                    let method = c[1].to_string();
+                    let arg = c[2].to_string();
+                    if let (Some(fl), Some(k)) = (c.get(3), c.get(4)) {
+                        flag_name = fl.as_str().to_string();
+                        if has_default.contains(&arg) {
+                            write!(cases, "synth_case!({mp}::{name}, \"{m}\", \"{k}\", new_{m}, set_{m}, (Default::default())), ", mp = mp, name = name, m = method, k = k.as_str()).unwrap();
+                        } else {
+                            write!(cases, "SynthCase::skipped(\"{m}\"), ", m = method).unwrap();
+                        }
+                    } else {
+                        // argument is an enum of alternatives (else-if chain on the flag): one case per variant
+                        let Some(es) = src.find(&format!("pub enum {} {{", arg)) else { continue };
+                        let ee = src[es..].find("\n}\n").map(|x| es + x).unwrap_or(src.len());
+                        let eblock = &src[es..ee];
+                        let re_var = Regex::new(r"(?m)^    (\w+)(?: \{\n((?:        \w+: [^\n]+,\n)*)    \})?,").unwrap();
+                        for v in re_var.captures_iter(eblock) {
+                            let vname = v[1].to_string();
+                            let fields: Vec<(String, String)> = v.get(2).map(|m| m.as_str().lines().filter_map(|l| l.trim().trim_end_matches(',').split_once(": ").map(|(a, b)| (a.to_string(), b.to_string()))).collect()).unwrap_or_default();
+                            // SCREAMING_SNAKE of the variant name is the enumerator
+                            let mut k = String::new();
+                            for (i, ch) in vname.chars().enumerate() {
+                                if ch.is_uppercase() && i > 0 {
+                                    k.push('_');
+                                }
+                                k.push(ch.to_ascii_uppercase());
+                            }
+                            if fields.iter().all(|(_, t)| defaultable(t)) {
+                                let ctor = if fields.is_empty() { format!("{}::{}::{}", mp, arg, vname) } else { format!("{}::{}::{} {{ {} }}", mp, arg, vname, fields.iter().map(|(n, _)| format!("{}: Default::default()", n)).collect::<Vec<_>>().join(", ")) };
+                                write!(cases, "synth_case!({mp}::{name}, \"{m}:{v}\", \"{k}\", new_{m}, set_{m}, ({ctor})), ", mp = mp, name = name, m = method, v = vname, k = k, ctor = ctor).unwrap();
+                            } else {
+                                write!(cases, "SynthCase::skipped(\"{m}:{v}\"), ", m = method, v = vname).unwrap();
+                            }
+                        }
+                    }
+                }
+                if flag_name.is_empty() {
+                    // the flag name is also in the clear_ methods / other members
+                    if let Some(c) = Regex::new(r"self\.inner \|= (\w+)::\w+;").unwrap().captures(block) {
+                        flag_name = c[1].to_string();
+                    }
+                }
+                writeln!(synth, "    SynthAdapter {{ path: \"{mp}::{name}\", flag: \"{fl}\", nss: &[{nss}], cases: vec![{cases}] }},", mp = mp, name = name, fl = flag_name, nss = nss_s, cases = cases).unwrap();
+            }
+        }
+    }
     let out = format!(
+        "pub fn synth_adapters() -> Vec<SynthAdapter> {{\n    vec![\n{}    ]\n}}\n\n", synth) + &format!(
         "pub fn enum_adapters() -> Vec<EnumAdapter> {{\n    vec![\n{}    ]\n}}\n\npub fn flag_adapters() -> Vec<FlagAdapter> {{\n    vec![\n{}    ]\n}}\n\npub fn um_kinds() -> Vec<UmKind> {{\n    vec![\n{}    ]\n}}\n",
         enums, flags, um
     );
